@@ -34,7 +34,7 @@ out.append("| seeded change | property | caught by (quick) | note |")
 out.append("|---|---|---|---|")
 notes = json.load(open(V + "/seeded/NOTES.json")) if os.path.exists(V + "/seeded/NOTES.json") else {}
 n = ok = 0
-for d in sorted(glob.glob(V + "/seeded/*/")):
+for d in sorted(glob.glob(V + "/seeded/C*/")):
     name = os.path.basename(d.rstrip("/"))
     meta = json.load(open(d + "meta.json"))
     r = latest.get(name, meta["confirmation"])
